@@ -196,9 +196,21 @@ _sort_input = st.one_of(
 
 _big_pool = st.sampled_from([
     [0, 1, 2, 3], [0.5, 1.5, 2.5], [0, 1.0, 2, ['nan', 0]], ['a', 'b', 'ab', ''], [None, 0, 'a', 1.5], [0, ['nan', 0], ['nan', 1], None, 'a', ['dt', D0, 0]]])
-_sort_input_large = st.tuples(_big_pool, st.sampled_from([40, 64, 100, 128, 200, 256]), st.booleans()).flatmap(
+def _arrange(xs, pool, how):
+    # 'asis' random order; 'pool' grouped in pool order (looks sorted for homogeneous pools); 'rev' the reverse; 'one_off' grouped with one element moved to the end
+    if how == 'asis':
+        return xs
+    g = sorted(xs, key=lambda x: pool.index(x))
+    if how == 'rev':
+        return g[::-1]
+    if how == 'one_off' and len(g) > 2:
+        return g[1:] + g[:1]
+    return g
+
+
+_sort_input_large = st.tuples(_big_pool, st.sampled_from([40, 64, 100, 128, 200, 256]), st.booleans(), st.sampled_from(['asis', 'asis', 'pool', 'rev', 'one_off'])).flatmap(
     lambda t: st.lists(st.sampled_from(t[0]), min_size=t[1], max_size=t[1]).map(
-        lambda xs, tup=t[2]: dict(kind='tuples' if tup else 'scalars', xs=[['tuple', [x, 0]] for x in xs] if tup else xs)))
+        lambda xs, t=t: dict(kind='tuples' if t[2] else 'scalars', xs=[['tuple', [x, 0]] for x in _arrange(xs, t[0], t[3])] if t[2] else _arrange(xs, t[0], t[3]))))
 
 
 def run_sort_list(spec):
@@ -415,8 +427,8 @@ SUBS = [
              'non-decreasing under cmp, input untouched. non-trivial = length >= 3 and (>= 2 type classes or a NaN)',
         floor=0.2, class_floors={'nan_among_one_type': 0.03}),
     Sub('sort_list_large', lambda tier: _sort_input_large, run_sort_list, quick=150, thorough=1000,
-        rule='lists of 40-256 scalars (or 2-tuples) drawn from pools of 3-6 values incl. NaN objects, None, strings, datetimes: size-dependent paths of sort(); same oracle as sort_list',
-        floor=0.5),
+        rule='lists of 40-256 scalars (or 2-tuples) drawn from pools of 3-6 values incl. NaN objects, None, strings, datetimes, in random / grouped (looks sorted) / reversed / one-off order: size-dependent paths of sort(); same oracle as sort_list',
+        floor=0.2),
     Sub('table_sort', lambda tier: _table_case(), run_table_sort, quick=1500, thorough=12000,
         rule='tables of 0-8 rows x 1-4 columns with a hidden position column; keys as *names, as one list, as a function, as value orders, or none; '
              'oracle: permutation of rows, keys non-decreasing under cmp, ties keep original order, idempotent, unlisted values last, operand untouched. '
